@@ -74,4 +74,14 @@ MUTANTS = [
     M('sema:modifier:inv->ctrl', 'sema', ['C06'], 'expr_stmt_to_asg_stmt', 'synast::Modifier::InvModifier(_) => asg::GateModifier::Inv,', 'synast::Modifier::InvModifier(_) => asg::GateModifier::Ctrl(None),'),
     M('sema:cal:silently-dropped', 'sema', ['C03'], 'stmt_to_asg_stmt', 'synast::Stmt::Cal(n) => not_impl!(context, n),', 'synast::Stmt::Cal(n) => Some(asg::Stmt::NullStmt),'),
     M('sema:to_stmt:while-as-if', 'sema', ['C06'], 'Pragma::to_stmt', 'Stmt::Pragma(self)', 'Stmt::NullStmt'),
+    # ---- SYNX
+    M('synx:gate-inverted', 'synx', ['C11'], 'parse_text_check_lex', 'if !lexed.errors_is_empty() {', 'if lexed.errors_is_empty() {'),
+    M('synx:gate-dropped', 'synx', ['C11'], 'parse_text_check_lex', 'if !lexed.errors_is_empty() {', 'if false {'),
+    M('synx:range-swapped', 'synx', ['C12', 'C01'], 'lexer_errors_to_syntax_errors', 'text_range.start.try_into().unwrap(),\n            text_range.end.try_into().unwrap(),', 'text_range.end.try_into().unwrap(),\n            text_range.start.try_into().unwrap(),'),
+    M('synx:lex-other-text', 'synx', ['C02'], 'parse_text', 'oq3_parser::LexedStr::new(openqasm_code_text)', 'oq3_parser::LexedStr::new("")'),
+    # ---- ASTX
+    M('astx:range:two-children-step', 'astx', ['C05', 'C06'], 'ast::RangeExpr::start_step_stop', '(first, third, second)', '(first, second, third)'),
+    M('astx:bin:rhs-is-lhs', 'astx', ['C05', 'C06'], 'ast::BinExpr::rhs', '.nth(1)', '.nth(0)'),
+    M('astx:while:body-second-expr', 'astx', ['C05', 'C06'], 'ast::WhileStmt::condition', 'first => first,', 'first => exprs.next(),'),
+    M('astx:assign:rhs-first', 'astx', ['C05', 'C06'], 'ast::AssignmentStmt::rhs', '        if expr2.is_some() {\n            expr2\n        } else {\n            expr1\n        }', '        expr1'),
 ]
